@@ -238,6 +238,7 @@ func runHistoryBound(h *run.H, c *Case, draw func(w *hist.World, i int) (hist.St
 				}
 			}
 			b, _ := w.RunBlock(*st.Spec)
+			R = w.R[0] // (a restart before the block replaces the replica)
 			if R.Panicked {
 				sv = &verdict{"node-panic", "block:" + R.PanicCall, fmt.Sprintf("history: the application panicked in %s at height %d (kinds %v)", R.PanicCall, b.Height, st.Kinds)}
 			}
